@@ -239,6 +239,188 @@ def one_pkg_load(case, pkg, base, root, given_names):
     return json.loads(_strip_instance(json.dumps(out)))
 
 
+# ------------------------------------------------------------------ the order in which the file system lists files
+LISTING_ORDERS = ['as listed by the file system', 'ascending', 'descending', 'rotated', 'even entries then odd entries',
+                  'odd entries then even entries, reversed']
+
+
+def _ordered(v, names, key=None):
+    s = sorted(names, key=key)
+    if v == 1:
+        return s
+    if v == 2:
+        return s[::-1]
+    if v == 3:
+        return s[len(s) // 2:] + s[:len(s) // 2]
+    if v == 4:
+        return s[::2] + s[1::2]
+    return (s[1::2] + s[::2])[::-1]
+
+
+class _Scan(object):
+    """os.scandir() result whose entries come in the order of this process (iterator + context manager)"""
+
+    def __init__(self, it, v):
+        self._it = it
+        self._entries = iter(_ordered(v, list(it), key=lambda e: e.name))
+
+    def __iter__(self):
+        return self
+
+    def __next__(self):
+        return next(self._entries)
+
+    def close(self):
+        self._it.close()
+
+    def __enter__(self):
+        return self
+
+    def __exit__(self, *a):
+        self._it.close()
+        return False
+
+
+def install_listing_order(v):
+    """process number v sees every directory listing (os.listdir, os.scandir and through it glob / os.walk /
+    shutil.copytree, glob.glob) in its own order; process 0 keeps what the file system reports"""
+    import glob
+    if not v:
+        return
+    real_listdir, real_scandir, real_glob = os.listdir, os.scandir, glob.glob
+    os.listdir = lambda *a, **k: _ordered(v, real_listdir(*a, **k))
+    os.scandir = lambda *a, **k: _Scan(real_scandir(*a, **k), v)
+    glob.glob = lambda *a, **k: _ordered(v, real_glob(*a, **k))
+
+
+# ------------------------------------------------------------------ ONE configuration object, re-parametrized
+def _observe_cfg(cfg, root):
+    res = {}
+    res['uv'] = cfg.get_user_variables()
+    res['layered'] = [os.path.basename(p) for p in cfg._variable_files]
+    res['platform'] = cfg.get_platform_name()
+    conc = cfg.get_flowir_concrete(return_copy=False)
+    res['stage_vars'] = {s: conc.get_platform_stage_variables(s, platform=conc.active_platform)
+                         for s in range(conc.get_stage_number())}
+    every = {}
+    for plat in sorted(conc.platforms):
+        every[plat] = {}
+        for s in range(conc.get_stage_number()):
+            try:
+                every[plat][s] = conc.get_platform_stage_variables(s, platform=plat)
+            except Exception as e:
+                every[plat][s] = 'raise ' + type(e).__name__
+    res['stage_vars_every_platform'] = every
+    res['global'] = cfg.get_global_variables()
+    res['environments'] = conc.get_environments()
+    comps = {}
+    for cid in sorted(conc.get_component_identifiers(True)):
+        try:
+            comps['stage%d.%s' % cid] = conc.get_component_configuration(
+                cid, raw=False, include_default=True, is_primitive=True)
+        except Exception as e:
+            comps['stage%d.%s' % cid] = 'raise ' + type(e).__name__
+    res['components'] = comps
+    return res
+
+
+def _cfg_loader(case, base):
+    """-> load(platform, variable files, is_instance=False, location=None): a NEW configuration object"""
+    import experiment.model.conf as C
+    import experiment.model.frontends.flowir as F
+    if case['format'] == 'memory':
+        def load(platform, given, is_instance=False, location=None):
+            concrete = F.FlowIRConcrete(_fix_keys(json.loads(json.dumps(case['flowir']))), platform or 'default', {})
+            return C.FlowIRExperimentConfiguration(
+                path=None, platform=platform, variable_files=list(given), system_vars=None, is_instance=False,
+                createInstanceFiles=False, primitive=True, concrete=concrete, updateInstanceFiles=False)
+        return load
+    pkg = os.path.join(base, 'p.package')
+    files = dict(case['files'])
+    if case['format'] in ('flowir', 'dsl'):
+        files['conf/flowir_package.yaml' if case['format'] == 'flowir' else 'conf/dsl.yaml'] = case['doc']
+    write_files(pkg, files, [n for n in case['create_order'] if n in files] + [n for n in files if n not in case['create_order']])
+
+    def load(platform, given, is_instance=False, location=None):
+        return C.ExperimentConfigurationFactory.configurationForExperiment(
+            location or pkg, platform=platform, variable_files=list(given), is_instance=is_instance,
+            createInstanceFiles=False, updateInstanceFiles=False, primitive=True)
+    return load
+
+
+def _guard(fn, root):
+    try:
+        return fn()
+    except Exception as e:
+        res = {'error': type(e).__name__}
+        if os.environ.get('C15_DEBUG'):
+            res['trace'] = traceback.format_exc()
+        return res
+
+
+def run_cfg(case, base, root):
+    """ONE configuration object of a package (in-memory FlowIR, FlowIR file, DSL 2.0, DOSINI): constructed with the
+    options of the first call THIS process performs, then re-parametrized with the options of the other calls; the
+    answer to call i is dumped under i (in some other process call i is the constructor: a fresh load)"""
+    load = _cfg_loader(case, base)
+    Disk(base, case['vfiles'], case['vcreate_order'])
+    os.chdir(base)
+    pristine = {}
+    results = {}
+    obj = None
+    for i in case['call_order']:
+        call = case['calls'][i]
+        plat, given = call.get('platform'), [os.path.join(base, n) for n in call['given']]
+        if plat not in pristine:
+            # the stage variables of the package itself (a load without user variable files), for the model
+            pristine[plat] = _guard(lambda: _observe_cfg(load(plat, []), root)['stage_vars'], root)
+
+        def answer():
+            nonlocal obj
+            if obj is None:
+                obj = load(plat, given)
+            else:
+                obj.parametrize(platform=plat, variable_files=list(given), systemvars=None, is_instance=False,
+                                createInstanceFiles=False, primitive=True, updateInstanceFiles=False)
+            return _observe_cfg(obj, root)
+        r = _guard(answer, root)
+        if 'error' not in r:
+            r['stage_vars_before'] = pristine[plat]
+        results[i] = r
+    return canon({'calls': [results[i] for i in range(len(case['calls']))]}, root)
+
+
+def run_inst(case, base, root):
+    """a DOSINI package instantiated by the real Experiment.experimentFromPackage (user variable files / platform):
+    conf/stages.d of the instance holds BOTH flavours of every stage file.  Loaded afterwards: the package, the
+    package flavour of the instance directory (is_instance=False), its instance flavour (is_instance=True)"""
+    import experiment.model.storage as S
+    import experiment.model.data as D
+    load = _cfg_loader(case, base)
+    Disk(base, case['vfiles'], case['vcreate_order'])
+    os.chdir(base)
+    plat = case.get('platform')
+    given = [os.path.join(base, n) for n in case['given']]
+    out = {}
+    out['package'] = _guard(lambda: _observe_cfg(load(plat, []), root), root)
+
+    def instantiate():
+        package = S.ExperimentPackage.packageFromLocation(os.path.join(base, 'p.package'), platform=plat)
+        exp = D.Experiment.experimentFromPackage(package, location=base, variable_files=given or None, platform=plat)
+        return exp.instanceDirectory.location
+    try:
+        inst = instantiate()
+    except Exception as e:
+        return canon({'error': 'instantiate: ' + type(e).__name__, 'trace': traceback.format_exc()[-600:]
+                      if os.environ.get('C15_DEBUG') else None}, root)
+    out['stage_files'] = sorted(os.listdir(os.path.join(inst, 'conf', 'stages.d')))
+    out['package_flavour_of_instance'] = _guard(lambda: _observe_cfg(load(plat, [], False, inst), root), root)
+    out['instance_flavour_of_instance'] = _guard(lambda: _observe_cfg(load(None, [], True, inst), root), root)
+    # and the package once more, after the instance was made out of it
+    out['package_again'] = _guard(lambda: _observe_cfg(load(plat, []), root), root)
+    return json.loads(_strip_instance(json.dumps(canon(out, root))))
+
+
 def _strip_instance(s):
     import re
     return re.sub(r'p-\d{4}-\d{2}-\d{2}T\d{6}\.\d+\.instance', 'p.instance', s)
@@ -248,13 +430,17 @@ def main():
     job_path, out_path = os.path.abspath(sys.argv[1]), os.path.abspath(sys.argv[2])
     job = json.load(open(job_path))
     root = tempfile.mkdtemp(prefix='verif_c15_')
+    if not os.environ.get('C15_NO_LISTING_ORDER'):
+        install_listing_order(job.get('variant', 0))
     out = []
     try:
         for i, case in enumerate(job['cases']):
             base = os.path.join(root, 'c%d' % i)
             os.makedirs(base)
+            os.chdir(root)      # the working directory of the previous case is gone
             try:
-                r = run_vars(case, base, root + '/c%d' % i) if case['kind'] == 'vars' else run_pkg(case, base, root + '/c%d' % i)
+                runner = {'vars': run_vars, 'pkg': run_pkg, 'cfg': run_cfg, 'inst': run_inst}[case['kind']]
+                r = runner(case, base, root + '/c%d' % i)
             except Exception as e:  # machinery error: reported as such
                 r = {'harness_error': type(e).__name__ + ': ' + str(e)[:300], 'trace': traceback.format_exc()[-1500:]}
             out.append(json.dumps(r, sort_keys=True))
